@@ -207,6 +207,58 @@ def CopyApi.deep : CopyApi → Bool
 /-- the operation a copy call is; `fresh` = the new grid got its own backing store (observed) -/
 def Op.ofCopy (api : CopyApi) (fresh : Bool) : Op := .copy api.deep fresh
 
+/-! ## the FORM of an indexer of a grid dimension, and its normalisation to positions
+
+    Whatever form the user writes — a Python / NumPy integer list (negative entries count from the end,
+    duplicates allowed), a slice with any step, a boolean mask (NumPy array, list of bools, a boolean
+    `xarray.DataArray` such as `uxda > c`) — a selection along a dimension of length `n` IS a list of
+    positions `< n`.  `UxDataArray.isel` computes it as `np.arange(n)[indexer]`; the harness compares
+    `normIdx` with NumPy on every generated indexer.  A mask is NOT its cast to integers. -/
+
+inductive Idx where
+  | ints (l : List Int)
+  | slice (start stop : Option Int) (step : Int)
+  | mask (m : List Bool)
+deriving DecidableEq, Repr
+
+/-- positions of the `true` entries of a mask whose first entry sits at position `k` -/
+def maskPos : Nat → List Bool → List Nat
+  | _, [] => []
+  | k, b :: m => if b then k :: maskPos (k + 1) m else maskPos (k + 1) m
+
+def pyClamp (x lo hi : Int) : Int := if x < lo then lo else if x > hi then hi else x
+
+/-- Python's `slice(start, stop, step).indices(n)` expanded -/
+def sliceIdx (n : Nat) (start stop : Option Int) (step : Int) : Option (List Nat) :=
+  let N : Int := n
+  let wrap (v : Int) : Int := if v < 0 then v + N else v
+  if step = 0 then none
+  else if step > 0 then
+    let s := match start with | none => 0 | some v => pyClamp (wrap v) 0 N
+    let e := match stop with | none => N | some v => pyClamp (wrap v) 0 N
+    some ((List.range n).filter (fun (i : Nat) => decide (s ≤ (i : Int)) && decide ((i : Int) < e) &&
+                                          decide (((i : Int) - s) % step = 0)))
+  else
+    let s := match start with | none => N - 1 | some v => pyClamp (wrap v) (-1) (N - 1)
+    let e := match stop with | none => -1 | some v => pyClamp (wrap v) (-1) (N - 1)
+    some (((List.range n).filter (fun (i : Nat) => decide ((i : Int) ≤ s) && decide ((i : Int) > e) &&
+                                           decide ((s - (i : Int)) % (-step) = 0))).reverse)
+
+def intPos (n : Nat) (i : Int) : Option Nat :=
+  if 0 ≤ i ∧ i < n then some i.toNat
+  else if -(n : Int) ≤ i ∧ i < 0 then some (i + n).toNat
+  else none                                  -- IndexError
+
+/-- the positions an indexer selects along a dimension of length `n` (`none`: NumPy raises) -/
+def normIdx (n : Nat) : Idx → Option (List Nat)
+  | .ints l => l.mapM (intPos n)
+  | .slice a b st => sliceIdx n a b st
+  | .mask m => if m.length = n then some (maskPos 0 m) else none
+
+/-- what a mask becomes when it is CAST to integers instead of normalised (the slip of the seeded change
+    C10f, and what `Grid.isel` did with a mask before fixes/C10-grid-isel-mask-and-slice.patch) -/
+def maskAsInts (m : List Bool) : Idx := .ints (m.map (fun b => if b then 1 else 0))
+
 /-! ## the public uxarray calls that return a `UxDataArray`, with every value of their kind-selecting
     keyword arguments.  This is the table the harness's mechanical enumeration of constructor sites
     (ast walk over core/, remap/, subset/, cross_sections/) is compared with on every run. -/
